@@ -45,8 +45,25 @@ def main(argv):
     except Machinery as e:
         print('MACHINERY-FAILURE property=%s: %s' % (pid, e))
         return 2
-    except Exception:
+    except Exception as e:
+        # An exception that escapes from the implementation under test (innermost frame inside the
+        # taurex package) while a driver exercises an input inside the property's quantifier is a
+        # violation ("the code raised"), not a failure of the machinery.
+        tb = traceback.extract_tb(e.__traceback__)
+        inner = tb[-1] if tb else None
+        try:
+            import taurex
+            pkg = os.path.dirname(os.path.abspath(taurex.__file__))
+        except Exception:
+            pkg = None
+        in_impl = bool(inner and pkg and os.path.abspath(inner.filename).startswith(pkg))
         traceback.print_exc()
+        if in_impl and not isinstance(e, (ImportError, SyntaxError)):
+            where = '%s:%s' % (os.path.relpath(inner.filename, pkg), inner.name)
+            ctx.verdict('implementation_raised', False, cls='%s@%s' % (type(e).__name__, where),
+                        detail='%s: %s (at %s line %s)' % (type(e).__name__, e, where, inner.lineno),
+                        vector=dict(exception=type(e).__name__, where=where))
+            return ctx.finish()
         print('MACHINERY-FAILURE property=%s: unexpected exception in driver' % pid)
         return 2
 
